@@ -1,1 +1,39 @@
-From AwkV Require Import Layout.
+(** C07 property theorems (proofs in Proofs_C07.v).  [combos repl n l] is what the value-level
+    specification [comb_f] puts, as tuples, in place of every list [l] at the axis; the theorems
+    say it is exactly itertools.combinations(_with_replacement). *)
+From AwkV Require Import Layout Ops_Struct Proofs_C07.
+
+Theorem combinations_result : forall n repl t l,
+  comb_f n repl t l = Ok (VList (map VTup (combos repl n l))).
+Proof. exact (fun n repl t l => eq_refl). Qed.
+Print Assumptions combinations_result.
+
+(* number of tuples per list = binomial count *)
+Theorem combs_length_is_binomial : forall (l : list value) n, length (combs n l) = binom (length l) n.
+Proof. exact (fun l n => combs_length n l). Qed.
+Print Assumptions combs_length_is_binomial.
+
+Theorem combs_r_length_is_multichoose : forall (l : list value) n m,
+  length l = S m -> length (combs_r n l) = binom (m + n) n.
+Proof. intros l n m H. rewrite combs_r_length, H. apply mc_binom. Qed.
+Print Assumptions combs_r_length_is_multichoose.
+
+(* every tuple has n elements, taken from this list in order (never from a neighbouring list) *)
+Theorem combs_tuples_are_subsequences : forall (l : list value) n t,
+  In t (combs n l) -> length t = n /\ subseq t l.
+Proof. exact (fun l n t H => conj (combs_tuple_length n l t H) (combs_subseq n l t H)). Qed.
+Print Assumptions combs_tuples_are_subsequences.
+
+(* every n-element subsequence is produced *)
+Theorem combs_all_subsequences : forall (l t : list value), subseq t l -> In t (combs (length t) l).
+Proof. exact combs_complete. Qed.
+Print Assumptions combs_all_subsequences.
+
+(* positions are never duplicated: over distinct positions no tuple appears twice *)
+Theorem combs_no_duplicates : forall (positions : list Z) n, NoDup positions -> NoDup (combs n positions).
+Proof. exact (fun p n => combs_NoDup n p). Qed.
+Print Assumptions combs_no_duplicates.
+
+Theorem combs_r_tuples_have_n : forall (l : list value) n t, In t (combs_r n l) -> length t = n.
+Proof. exact (fun l n t => combs_r_tuple_length n l t). Qed.
+Print Assumptions combs_r_tuples_have_n.
